@@ -304,24 +304,38 @@ func (r *hyRun) randQuery() hyQuery {
 		mk := func() mfilter {
 			f := fields[r.rng.Intn(2)]
 			if f == "c" {
-				switch r.rng.Intn(4) {
+				switch r.rng.Intn(7) {
 				case 0:
 					return mfilter{F: "c", Op: "ne", V: []string{"x", "y"}[r.rng.Intn(2)]}
 				case 1:
 					return mfilter{F: "c", Op: "exists"}
+				case 2: // a one-value (or two-value) membership test
+					vs := []any{[]string{"x", "y", "w"}[r.rng.Intn(3)]}
+					if r.rng.Intn(3) == 0 {
+						vs = append(vs, []string{"x", "y"}[r.rng.Intn(2)])
+					}
+					return mfilter{F: "c", Op: []string{"in", "in", "not_in"}[r.rng.Intn(3)], Vs: vs}
+				case 3:
+					return mfilter{F: "c", Op: "eq", V: []string{"x", "y"}[r.rng.Intn(2)], Neg: true}
 				default:
 					return mfilter{F: "c", Op: "eq", V: []string{"x", "y", "w"}[r.rng.Intn(3)]}
 				}
 			}
-			return mfilter{F: "n", Op: []string{"eq", "lt", "gte", "ne"}[r.rng.Intn(4)], V: []int{-5, 0, 5}[r.rng.Intn(3)]}
+			if r.rng.Intn(5) == 0 {
+				return mfilter{F: "n", Op: "range", V: []int{-5, 0}[r.rng.Intn(2)], V2: []int{0, 5}[r.rng.Intn(2)], Neg: r.rng.Intn(3) == 0}
+			}
+			return mfilter{F: "n", Op: []string{"eq", "lt", "gte", "ne", "lte", "gt"}[r.rng.Intn(6)], V: []int{-5, 0, 5}[r.rng.Intn(3)]}
 		}
 		ng := 1
 		if r.rng.Intn(3) == 0 {
 			ng = 2
 		}
 		for g := 0; g < ng; g++ {
-			mg := mgroup{Logic: "AND", Fs: []mfilter{mk()}}
-			if r.rng.Intn(3) == 0 {
+			mg := mgroup{Logic: []string{"AND", "AND", "OR"}[r.rng.Intn(3)], Fs: []mfilter{mk()}}
+			if g > 0 && r.rng.Intn(3) == 0 {
+				mg.Fs[0] = q.groups[0].Fs[0] // the same filter in two groups
+			}
+			if r.rng.Intn(3) == 0 || (ng == 2 && r.rng.Intn(2) == 0) {
 				mg.Fs = append(mg.Fs, mk())
 			}
 			q.groups = append(q.groups, mg)
@@ -422,10 +436,32 @@ func drvHybrid(args []string) error {
 			bits = 1 + r.rng.Intn(7)
 		}
 		r.reset(bits&1 != 0, bits&2 != 0, bits&4 != 0)
+		nIDs := 6
+		if r.rng.Intn(5) == 0 {
+			// a larger document set (10-13 documents) in which a filter keeps almost everything: c = "x" for all but one or two
+			nIDs = 14
+			n := 10 + r.rng.Intn(4)
+			odd := 1 + r.rng.Intn(n)
+			for i := 1; i <= n; i++ {
+				c := "x"
+				if i == odd || r.rng.Intn(12) == 0 {
+					c = "y"
+				}
+				meta := map[string]any{"c": c}
+				if r.rng.Intn(2) == 0 {
+					meta["n"] = []int{-5, 0, 5}[r.rng.Intn(3)]
+				}
+				ws := []string{}
+				for j := 1 + r.rng.Intn(3); j > 0; j-- {
+					ws = append(ws, hyWords[r.rng.Intn(4)])
+				}
+				r.add(hyBase+i, 2*((i*5)%12), strings.Join(ws, " "), meta, "none")
+			}
+		}
 		for step := 0; step < 16; step++ {
 			switch x := r.rng.Intn(20); {
 			case x < 7:
-				id := hyBase + 1 + r.rng.Intn(6)
+				id := hyBase + 1 + r.rng.Intn(nIDs)
 				if r.docs[id] {
 					continue
 				}
@@ -462,7 +498,7 @@ func drvHybrid(args []string) error {
 				}
 				r.add(id, pos, text, meta, fault)
 			case x < 10:
-				id := hyBase + 1 + r.rng.Intn(7)
+				id := hyBase + 1 + r.rng.Intn(nIDs+1)
 				if r.rng.Intn(6) == 0 && len(r.everRemoved) > 0 {
 					id = r.everRemoved[r.rng.Intn(len(r.everRemoved))]
 				}
